@@ -171,12 +171,15 @@ impl Prop for C06 {
             f.push(Family::new(
                 "arith",
                 Mode::Full,
-                "M1 + M2, M1 - M2, M1 / M2 for ordered pairs of rated currencies (quick: 8 x 32, thorough: 32 x 32); M * n and M / n for n in [2, 0.5, -1, 0]",
+                "M1 + M2, M1 - M2, M1 / M2 for ordered pairs of rated currencies (quick: 8 x 32, thorough: 32 x 32) with amounts (12,5; 3), (0; 3) and (12,5; 0) - a zero amount still has a currency; M * n and M / n for n in [2, 0.5, -1, 0]",
                 move |ch| {
                     let kind = ch.choose(5);
                     let lefts: Vec<String> = if pairs_all { rated.clone() } else { ["usd", "try", "eur", "jpy", "gbp", "idr", "bgn", "krw"].iter().map(|s| s.to_string()).collect() };
                     let a = ch.pick(&lefts).clone();
-                    let (x, y) = (12.5f64, 3.0f64);
+                    let ((xt, x), (yt, y)) = *ch.pick(&[(("12,5", 12.5f64), ("3", 3.0f64)), (("0", 0.0), ("3", 3.0)), (("12,5", 12.5), ("0", 0.0))]);
+                    if kind >= 3 && x != 12.5 {
+                        return None;
+                    }
                     match kind {
                         0 | 1 | 2 => {
                             let b = ch.pick(&rated).clone();
@@ -186,7 +189,8 @@ impl Prop for C06 {
                                 1 => ('-', money(x - y_in_a, &a)),
                                 _ => ('/', Val::Number(guarded_div(x, y_in_a), Base::Dec)),
                             };
-                            let text = format!("12,5 {} {} 3 {}", a, op, b);
+                            let _ = yt;
+                            let text = format!("{} {} {} {} {}", xt, a, op, yt, b);
                             Some(Case::Line(LineCase::new(text, Expect::Value(want, 1e-9), "M1 op M2")))
                         }
                         3 => {
